@@ -4,7 +4,6 @@ import (
 	"fmt"
 	"regexp"
 	"sort"
-	"strings"
 
 	pgs "github.com/lyft/protoc-gen-star/v2"
 	pgsgo "github.com/lyft/protoc-gen-star/v2/lang/go"
@@ -14,7 +13,7 @@ import (
 
 // ---- C17: Go types, packages and paths ----
 
-var qualifierRE = regexp.MustCompile(`[A-Za-z_][A-Za-z0-9_]*\.`)
+var qualifierRE = regexp.MustCompile(`([A-Za-z_][A-Za-z0-9_]*)\.([A-Za-z_][A-Za-z0-9_]*)`)
 
 type typeCmp struct {
 	Ref ref    `json:"ref"`
@@ -153,10 +152,21 @@ func observeC17(r *astRun) c17Obs {
 				// import aliases -> package names of the imported files (one pass, whole qualifiers only)
 				imps := gr.imports[en.ref.File]
 				src = qualifierRE.ReplaceAllStringFunc(src, func(q string) string {
-					alias := strings.TrimSuffix(q, ".")
-					if path, ok := imps[alias]; ok {
-						if name, ok := gr.pkgOf[path]; ok {
-							return name + "."
+					m := qualifierRE.FindStringSubmatch(q)
+					alias, sel := m[1], m[2]
+					paths := imps[alias]
+					if len(paths) > 1 { // one alias, several imports (`_ "."` next to blank imports): the one that declares the identifier
+						var hit []string
+						for _, p := range paths {
+							if gr.declBy[p][sel] {
+								hit = append(hit, p)
+							}
+						}
+						paths = hit
+					}
+					if len(paths) == 1 {
+						if name, ok := gr.pkgOf[paths[0]]; ok {
+							return name + "." + sel
 						}
 					}
 					return q
@@ -211,5 +221,23 @@ func goCuratedWorlds() []wWorld {
 	e.Head.Oneofs = []string{"body"}
 	e.Head.Enums = []wEnum{{Name: "kind", Values: []wEnumVal{{"KIND_ZERO", 0}}}}
 	fl.Msgs = []wMsg{a, b, c, d, e}
-	return []wWorld{{Files: []wFile{fl}, Targets: []string{"probe.proto"}}}
+	// a bare-name go_package at the root directory has import path ".", for which protoc-gen-go
+	// emits the qualifier `_` - the same alias as its blank imports of unused dependencies
+	// (false alarm of the thorough tier, seed 1: the source reader resolved `_` to the wrong import)
+	emptyF := func(name, pkg, gopkg string, deps ...string) wFile {
+		if deps == nil {
+			deps = []string{}
+		}
+		return wFile{Name: name, Pkg: pkg, Syn: "proto2", Deps: deps, PublicDeps: []int{}, Enums: []wEnum{}, Msgs: []wMsg{}, Services: []wService{}, Exts: []wField{}, Locs: []wLoc{}, GoPackage: gopkg}
+	}
+	r0 := emptyF("dir1/f0.proto", "", "example.com/z/a.b-c;d-e.f")
+	r0.Services = []wService{{Name: "Svc", Methods: []wMethod{}}}
+	r1 := emptyF("f1.proto", "a.b", "bareroot")
+	r1.Msgs = []wMsg{{Head: mh("Item", f("x", 1)), Nested: []wMsg{}}}
+	r1.Enums = []wEnum{{Name: "Kind", Values: []wEnumVal{{"KIND_UNKNOWN", 0}}}}
+	r2 := emptyF("dir0/f2.proto", "c", "example.com/x/v1.2", "dir1/f0.proto", "f1.proto")
+	r2.Msgs = []wMsg{{Head: mh("User", wField{Name: "item", Number: 1, Label: 1, Type: 11, TypeName: ".a.b.Item"},
+		wField{Name: "kinds", Number: 2, Label: 3, Type: 14, TypeName: ".a.b.Kind"}), Nested: []wMsg{}}}
+	return []wWorld{{Files: []wFile{fl}, Targets: []string{"probe.proto"}},
+		{Files: []wFile{r0, r1, r2}, Targets: []string{"f1.proto", "dir0/f2.proto"}}}
 }
